@@ -95,6 +95,13 @@ pub fn fast_check_roots(pkgs: &[FcPackage], root_pkgs: &[usize], cache: Option<&
 
 /// Same, with the graph built as `kind` (fast check does nothing for CodeOnly).
 pub fn fast_check_roots_kind(pkgs: &[FcPackage], root_pkgs: &[usize], cache: Option<&RecordingFcCache>, ch: &Ch, kind: GraphKind) -> Option<FcResult> {
+  fast_check_steps(pkgs, root_pkgs, cache, ch, kind, false)
+}
+
+/// `two_steps`: root.ts imports only the first export of the first root
+/// package; after build + fast check a second build on the same graph adds
+/// root2.ts with all the other imports, and fast check runs again.
+pub fn fast_check_steps(pkgs: &[FcPackage], root_pkgs: &[usize], cache: Option<&RecordingFcCache>, ch: &Ch, kind: GraphKind, two_steps: bool) -> Option<FcResult> {
   let sched = Sched::new(SchedMode::Immediate);
   let loader = ScriptedLoader::new(sched);
   let mut root = String::new();
@@ -114,13 +121,18 @@ pub fn fast_check_roots_kind(pkgs: &[FcPackage], root_pkgs: &[usize], cache: Opt
       exports: p.exports.iter().cloned().collect(),
     });
   }
+  let mut root2 = String::new();
   for p in root_pkgs.iter().map(|i| &pkgs[*i]).filter(|p| !p.workspace) {
     for (name, _) in &p.exports {
       let sub = if name == "." { "".to_string() } else { format!("/{}", name.trim_start_matches("./")) };
-      root.push_str(&format!("import \"jsr:{}@{}{sub}\";\n", p.name, p.version));
+      let line = format!("import \"jsr:{}@{}{sub}\";\n", p.name, p.version);
+      if two_steps && !root.is_empty() { root2.push_str(&line) } else { root.push_str(&line) }
     }
   }
   loader.add_text("https://x/root.ts", &root);
+  loader.add_text("https://x/root2.ts", &root2);
+  // workspace members: in two steps the first build takes only the first entrypoint
+  let later_roots: Vec<deno_graph::ModuleSpecifier> = if two_steps && roots.len() > 2 { roots.split_off(2) } else { vec![] };
   for p in pkgs.iter().filter(|p| !p.workspace) {
     let mut v = RegVersion::new(&p.version, &[]);
     v.files = p.files.iter().map(|(a, b)| (a.clone(), b.as_bytes().to_vec())).collect();
@@ -136,7 +148,7 @@ pub fn fast_check_roots_kind(pkgs: &[FcPackage], root_pkgs: &[usize], cache: Opt
   let mut graph = ModuleGraph::new(kind);
   build_graph(
     &mut graph,
-    roots,
+    roots.clone(),
     &loader,
     BuildCfg {
       module_analyzer: Some(&analyzer),
@@ -145,19 +157,38 @@ pub fn fast_check_roots_kind(pkgs: &[FcPackage], root_pkgs: &[usize], cache: Opt
     ch,
   )
   .ok()?;
+  let run_fast_check = |graph: &mut ModuleGraph| {
+    graph.build_fast_check_type_graph(deno_graph::BuildFastCheckTypeGraphOptions {
+      fast_check_cache: cache.map(|c| c as &dyn FastCheckCache),
+      fast_check_dts: false,
+      jsr_url_provider: Default::default(),
+      es_parser: Some(&analyzer),
+      resolver: None,
+      workspace_fast_check: if members.is_empty() {
+        deno_graph::WorkspaceFastCheckOption::Disabled
+      } else {
+        deno_graph::WorkspaceFastCheckOption::Enabled(&members)
+      },
+    });
+  };
+  if two_steps {
+    run_fast_check(&mut graph);
+    let mut second = vec![url("https://x/root2.ts")];
+    second.extend(later_roots);
+    build_graph(
+      &mut graph,
+      second,
+      &loader,
+      BuildCfg {
+        module_analyzer: Some(&analyzer),
+        ..Default::default()
+      },
+      ch,
+    )
+    .ok()?;
+  }
   let graph_errors: Vec<String> = graph.module_errors().map(|e| e.to_string()).collect();
-  graph.build_fast_check_type_graph(deno_graph::BuildFastCheckTypeGraphOptions {
-    fast_check_cache: cache.map(|c| c as &dyn FastCheckCache),
-    fast_check_dts: false,
-    jsr_url_provider: Default::default(),
-    es_parser: Some(&analyzer),
-    resolver: None,
-    workspace_fast_check: if members.is_empty() {
-      deno_graph::WorkspaceFastCheckOption::Disabled
-    } else {
-      deno_graph::WorkspaceFastCheckOption::Enabled(&members)
-    },
-  });
+  run_fast_check(&mut graph);
   let mut modules = BTreeMap::new();
   for p in pkgs {
     for (path, src) in &p.files {
